@@ -246,6 +246,11 @@ def check(ctx, prop):
         level = "exploration"
         ctx.log("DRIFT: conformance layer rejected a trace although the G predicates held: " + json.dumps(conf["first_rejection"])[:1500])
 
+    matrix = {}
+    for r in rows:
+        if r["ev"] == "Req":
+            k2 = "%s:%s" % (r["api"], r["code"])
+            matrix[k2] = matrix.get(k2, 0) + 1
     win = sum(1 for r in rows if served(r) and r["owns0"] and r["dead0"])
     dcount = {}
     for _, inv in diag:
@@ -260,7 +265,8 @@ def check(ctx, prop):
         "rule": "schedules = TLC counterexamples of the 12 named deviations + TLC -simulate behaviours (seeded; repaired design and pinned design); evaluations = requests judged; non-trivial = two different brokers served a non-Fetch request while the group existed (a failover really happened); failback = the serving broker changed at least twice",
         "deviation_schedules": sorted(DEVIATIONS), "conformance": ("drift" if drift else "accepted"), "conformance_detail": conf,
         "binding_self_test": st, "gate_hits": hits, "skipped_steps": skipped, "schedules_dropped_for_etcd_failures": getattr(ctx, "infra_dropped", 0),
-        "all_predicates_violation_lines": all_viol,
+        "all_predicates_violation_lines": all_viol, "requests_by_kind_and_reply_code": matrix,
+        "lease_steps": {e: sum(1 for r in rows if r["ev"] == e) for e in ("Expire", "Notice", "Shutdown")},
         "diagnostics": {
             "served_inside_expiry_detection_window": win,
             "predicates_false_if_window_were_not_excused": dcount,
@@ -282,28 +288,35 @@ def check(ctx, prop):
 
 def self_test(ctx, runs):
     """Corrupt recorded fields: layer O must flag a request served by a non-holder, layer C must reject a changed in-memory generation."""
-    run = next((x for x in runs if any(served(r) and not (r["owns0"] and r["dead0"]) for r in x)), None)
-    if run is None:
+    cands = [x for x in runs if any(served(r) and not (r["owns0"] and r["dead0"]) and r["api"] != "Fetch" for r in x)]
+    if not cands:
         raise Broken("binding self-test: no served request recorded")
-    idx = max(i for i, r in enumerate(run) if served(r) and not (r["owns0"] and r["dead0"]))
-    bad = copy.deepcopy(run[:idx + 1])
-    bad[idx]["key1"] = "b2" if bad[idx]["b"] == "b1" else "b1"
-    _, viol, _ = layers.observe(ctx, DIR, "Obs_GroupFailover.tla", "Obs_GroupFailover.cfg", bad, name="selfO")
-    if not any(v[1] == "G14_ServedOnlyByHolder" for v in viol):
-        raise Broken("binding self-test: observation layer did not flag a corrupted lease-key owner")
-    bad = copy.deepcopy(run[:idx + 1])
-    reached0, total0, _ = layers.conform(ctx, DIR, "Trace_GroupFailover.tla", "Trace_GroupFailover.cfg", bad, name="selfC0")
-    res = {"observation_layer_flags_corrupted_field": True}
-    if reached0 == total0:
-        tgt = next((r for r in reversed(bad) if r["ev"] != "Reset" and any(not g["none"] for g in r["st"]["mem"].values())), None)
-        if tgt is not None:
-            for g in tgt["st"]["mem"].values():
-                if not g["none"]:
-                    g["gen"] += 1
-            reached, total, _ = layers.conform(ctx, DIR, "Trace_GroupFailover.tla", "Trace_GroupFailover.cfg", bad, name="selfC")
-            if reached == total:
-                raise Broken("binding self-test: conformance layer accepted a corrupted in-memory generation")
-            res["conformance_layer_rejects_corrupted_state"] = True
+    res = {}
+    for n, run in enumerate(cands[:6]):
+        idx = max(i for i, r in enumerate(run) if served(r) and not (r["owns0"] and r["dead0"]) and r["api"] != "Fetch")
+        if "observation_layer_flags_corrupted_field" not in res:
+            bad = copy.deepcopy(run[:idx + 1])
+            bad[idx]["key1"] = "b2" if bad[idx]["b"] == "b1" else "b1"
+            _, viol, _ = layers.observe(ctx, DIR, "Obs_GroupFailover.tla", "Obs_GroupFailover.cfg", bad, name="selfO")
+            if not any(v[1] == "G14_ServedOnlyByHolder" for v in viol):
+                raise Broken("binding self-test: observation layer did not flag a corrupted lease-key owner")
+            res["observation_layer_flags_corrupted_field"] = True
+        base = copy.deepcopy(run[:idx + 1])
+        reached0, total0, _ = layers.conform(ctx, DIR, "Trace_GroupFailover.tla", "Trace_GroupFailover.cfg", base, name="selfC0-%d" % n)
+        if reached0 != total0:
+            continue  # this trace is not accepted as recorded (drift is reported by the main run): try another one
+        tgt = base[idx]
+        g = tgt["st"]["mem"][tgt["b"]]
+        if g["none"]:
+            continue
+        g["gen"] += 1
+        reached, total, _ = layers.conform(ctx, DIR, "Trace_GroupFailover.tla", "Trace_GroupFailover.cfg", base, name="selfC-%d" % n)
+        if reached == total:
+            raise Broken("binding self-test: conformance layer accepted a corrupted in-memory generation")
+        res["conformance_layer_rejects_corrupted_state"] = True
+        break
+    if "conformance_layer_rejects_corrupted_state" not in res:
+        raise Broken("binding self-test: no recorded trace was accepted by the conformance layer as recorded, nothing to corrupt")
     return res
 
 
